@@ -13,6 +13,7 @@ import (
 	"perun.network/go-perun/channel"
 	"perun.network/go-perun/client"
 	"perun.network/go-perun/wallet"
+	"perun.network/go-perun/wire"
 )
 
 func verifPBIndexMap(x []channel.Index) (y []channel.Index, err error) {
@@ -146,5 +147,26 @@ func verifPBSubChannelProposalMsg(x *client.SubChannelProposalMsg) (y *client.Su
 		return nil, err, nil
 	}
 	y, toErr = ToSubChannelProposalMsg(p)
+	return y, nil, toErr
+}
+
+func verifPBPingMsg(x *wire.PingMsg) *wire.PingMsg { return toPingMsg(fromPingMsg(x)) }
+
+func verifPBPongMsg(x *wire.PongMsg) *wire.PongMsg { return toPongMsg(fromPongMsg(x)) }
+
+func verifPBShutdownMsg(x *wire.ShutdownMsg) *wire.ShutdownMsg {
+	return toShutdownMsg(fromShutdownMsg(x))
+}
+
+func verifPBAuthResponseMsg(x *wire.AuthResponseMsg) *wire.AuthResponseMsg {
+	return toAuthResponseMsg(fromAuthResponseMsg(x))
+}
+
+func verifPBChannelSyncMsg(x *client.ChannelSyncMsg) (y *client.ChannelSyncMsg, fromErr, toErr error) {
+	p, err := fromChannelSyncMsg(x)
+	if err != nil {
+		return nil, err, nil
+	}
+	y, toErr = toChannelSyncMsg(p)
 	return y, nil, toErr
 }
